@@ -21,6 +21,11 @@ CHECKS = {
             "For 3 (quick) / 4 (thorough) histories of commits followed by a reorganisation (rollbacks + commits of a competing branch: transfers, contract calls with auto-receives and refunds, empty momentums, fork depth 1-5) delivered through InsertChain to a real node, the process is stopped before every leveldb write call-out of every ldbManager.Add / Pop and between operations (quick: database directory imaged inside the call-out; thorough: additionally a child process that os.Exit(137)s inside the call-out without closing, for every point). Every image must open as a node, hold exactly the pre- or post-state of the interrupted operation over the whole raw key space (ledger, redo, undo) and reach the crash-free final state after re-delivery.",
             "Process stops between leveldb writes only; goleveldb's own journal atomicity for a single Write is trusted; fsync/power loss out of scope.",
             "5/C08"),
+    "C05": ("model_checking",
+            "exhaustive single-field mutation of valid next momentums in several chain situations against an independent predicate + exhaustive comparison of the election schedule of every slot across node kinds and against a reference election",
+            "(a) at 18 (quick) / more (thorough) chain situations (heights 1-2, tick boundary, last slot of a tick, skipped slot, after a delegation change) the real producer's next momentum x 48 field values over 12 fields x 4 sealing modes (untouched; re-signed by the producer / another pillar / the pillar elected for the mutated slot), delivered through Supervisor.ApplyMomentum and InsertChain: accepted => hash commits to content and changes hash (own pre-image), directly extends the frontier with a strictly later timestamp, signed by the pillar a reference election elects for its slot. (b) for 166 (quick) / 2873 (thorough) histories (skipped slots, re-delegation, transfers moving weights, exact ties, pillar registration and revocation; 2-7 pillars from generated genesis configs; (NodeCount,RandCount) in {(3,1),(4,2),(30,15)} by worker) GetMomentumProducer for every slot from genesis to frontier + 2 ticks on the live producer, a one-batch follower, a one-by-one follower at every prefix, restarted followers with kept and wiped consensus cache, and a follower before/after a reorg and restarted: all equal each other and the reference election (weights at the proof momentum, ordering, group split, seeded permutation), every elected pillar active at the proof momentum.",
+            "math/rand's seeded permutation is the specification and is trusted; the +10 s future bound uses real time (only 'year 2100 rejected' is asserted); zero active pillars not reached.",
+            "5/C05"),
     "C06": ("model_checking",
             "exhaustive enumeration of reorganisation scenarios on real nodes (fork depth x content x warmed-view subsets x pool contents x delivery shape x follow-up) with a differential oracle against a fresh node",
             "Two real producers fork at depth 1-3 (thorough: also 29, 30, 31) with different content on both sides (transfers, contract calls, refunds, delegation changes, skipped slots). Node N adopts branch A and is then handed the longer branch B through InsertChain. Every combination of: subset of historical views requested before the switch (ids on the common prefix and on the abandoned branch), pool contents at switch time (block valid only on A, block valid on both), delivery shape (from fork point / overlapping / re-delivered singly) and follow-up (nothing / next momentum / gossip acknowledging a pre-fork momentum) is executed; N must equal a fresh node fed only the adopted branch in raw store (ledger+undo+redo), every historical view, absence of views for abandoned ids, pool acceptability, consensus statistics and election results. Additionally every single-momentum rollback must restore the exact raw store recorded before that momentum was added.",
@@ -41,6 +46,11 @@ CHECKS = {
             "All histories of depth 3 (quick) / depth 4 plus an extended 25-op alphabet at depth 3 (thorough) over 16 operations (transfers incl. whole balance and balance+1, custom-token transfers, receives: valid / by the wrong account / repeated, token issue / mint within and over max / mint by non-owner / burn, refunded and successful contract calls, momentums) from 2 (quick) / 3 (thorough, incl. pending rewards) base states. After every transition an independent scan of the raw ledger (all account chains and balances) checks at the confirmed ledger and at the pool view, for every token: recorded supply == sum of balances + sum of sends without a receive, supply <= max supply, no negative balance; and that recorded supplies changed only when a token-contract receive block was added.",
             "Live-network receiver-enforcement regime; amounts from a boundary set; epochs shrunk to 6 momentums.",
             "5/C01"),
+    "C03": ("model_checking",
+            "exhaustive single- and double-field mutation closure of valid candidate blocks of every type from reachable ledger states, submitted through the real acceptance path, against an independent validity predicate",
+            "8 ledger states (4 situations: confirmed predecessors with contract inboxes holding two entries; all predecessors unconfirmed in the pool; genesis predecessors; confirming momentum below the frontier with a pending refund; each under the enforced and the legacy receiver regime) x 16 valid candidates (user send, user receive, first block of an account, contract receive, contract receive carrying a refund descendant = the only way a contract send travels) x all 22 fields x 449 (type, field, value) points x 3 sealing modes (hash/signature untouched; recomputed and re-signed by the owner; signed by a foreign key): quick all single mutations + the full two-field closure in one state, thorough the complete two-field closure (359k candidates), each delivered through ChainBridge.AddAccountBlocks on a scratch node. accepted => an independent predicate holds (own hash pre-image, own address derivation, ed25519 by the account key or keyless and equal to the regenerated contract block, height/previous, acknowledged momentum rules, 0 <= amount < 2^255, amount <= balance, receive of a confirmed unreceived send addressed to the receiver when enforced). Rejection reasons are counted; reasons never hit are listed.",
+            "The converse (valid => accepted) is not demanded; triple mutations and PoW-only first blocks not covered.",
+            "5/C03"),
     "C04": ("model_checking",
             "bounded-history explicit-state exploration on a real node with whole-ledger receive-once / FIFO invariants recomputed independently after every transition",
             "All histories of depth 3 (quick) / 4 + extended alphabet (thorough) over 15 operations (calls to 3 contracts from 4 accounts, momentum with and without the producer's auto-receive phase so inboxes grow, user receives in and out of order, repeated receive, receive by the wrong account, competing higher-plasma receives replacing pooled ones, a hand-generated contract receive for inbox entry #2 while #1 is pending, restart) from 2 base states. After every transition, at the confirmed ledger and the pool view: every send has at most one receiving block and it is made by the addressee; every contract's receive sequence equals a prefix of the queue recomputed from the confirmed chain (momentum order, content order, block before descendants).",
